@@ -391,7 +391,12 @@ func genFull(t reflect.Type, d int) reflect.Value {
 		} else if d > 0 && len(fillProtos) > 0 {
 			s := reflect.MakeSlice(t, 2, 2)
 			s.Index(0).Set(genFull(t.Elem(), d-1))
-			s.Index(1).Set(genFull(t.Elem(), d-1))
+			b := genFull(t.Elem(), d-1)
+			if t.Elem().Kind() == reflect.Slice && b.Len() > 0 {
+				// rows of different widths: the second row is one element wider than the first
+				b = reflect.Append(b, genFull(t.Elem().Elem(), d-2))
+			}
+			s.Index(1).Set(b)
 			out.Set(s)
 		} else if d > 0 {
 			s := reflect.MakeSlice(t, 1, 1)
